@@ -26,7 +26,7 @@ def main():
     vc = '/dev/shm/v_seed_%s' % tag
     out = {'seed': seed, 'results': {}}
     try:
-        r = sh('git -C /repo worktree add -q %s HEAD' % wt)
+        r = sh('flock /dev/shm/wt.lock git -C /repo worktree add -q %s HEAD' % wt)
         assert r.returncode == 0, r.stderr
         r = sh('git -C %s apply %s/patch.diff' % (wt, seed))
         if r.returncode != 0:
